@@ -93,7 +93,7 @@ func run(tapeJSON json.RawMessage, res *core.Result) {
 		res.Verdict, res.Harness = "invalid", err.Error()
 		return
 	}
-	if len(tp.Pres) < 1 || len(tp.Pres) > 120 || len(tp.Keytab.Services) < 1 || len(tp.Keytab.Realms) < 1 || len(tp.Keytab.Kvnos) < 1 || len(tp.Keytab.Etypes) < 1 {
+	if len(tp.Pres) < 1 || len(tp.Pres) > 400 || len(tp.Keytab.Services) < 1 || len(tp.Keytab.Realms) < 1 || len(tp.Keytab.Kvnos) < 1 || len(tp.Keytab.Etypes) < 1 {
 		res.Verdict, res.Harness = "invalid", "shape"
 		return
 	}
